@@ -156,7 +156,7 @@ def r07g(rep, prog, only_files=None):
             seen.add(key)
             n += 1
             what = 'library functions keep no mutable function-local static state'
-            if fn.g == common.KNOB:
+            if fn.g == common.KNOB or any(x in (bt.get('canon') or '') for x in ('global_control', 'task_scheduler_init', 'task_arena')):
                 rep.ok('R07g', d, fn, what, 'owner of the TBB control object: meant to outlive the call (C20)')
                 continue
             rep.violation('R07g', d, fn, what,
